@@ -341,7 +341,9 @@ void write(const JVal& v, std::string& out, const WriteOpts& o) {
     case JVal::Null: out += "null"; break;
     case JVal::False: out += "false"; break;
     case JVal::True: out += "true"; break;
-    case JVal::Uint: snprintf(b, sizeof b, "%llu", (unsigned long long)v.u); out += b; break;
+    case JVal::Uint:
+      if (v.u == 0 && o.escape_more && o.ws_rng && o.ws_rng->chance(1, 3)) { out += "-0"; break; }   // the integer literal -0 denotes the integer 0
+      snprintf(b, sizeof b, "%llu", (unsigned long long)v.u); out += b; break;
     case JVal::Sint: snprintf(b, sizeof b, "%lld", (long long)v.i); out += b; break;
     case JVal::Real:
       if (o.escape_more && o.ws_rng && o.ws_rng->chance(1, 3)) {   // other spellings of the same double
